@@ -122,7 +122,8 @@ def task_sequencing(pr, repo):
                     def clean(ex, ctx, fi_, a, k, so):
                         so.attrs['__stale__'] = False
                     ex.contracts[G + '.calculate_total_pka'] = clean
-                    ex.contracts[G + '.remove_determinants'] = lambda ex, ctx, fi_, a, k, so: dirty()
+                    removed = []
+                    ex.contracts[G + '.remove_determinants'] = lambda ex, ctx, fi_, a, k, so: (removed.append(a[0] if a else None), dirty())[1]
                     for n in ('set_backbone_determinants', 'set_ion_determinants', 'set_determinants'):
                         ex.contracts['propka.determinants.' + n] = lambda ex, ctx, fi_, a, k, so: dirty()
                     version = record('version', None)
@@ -140,6 +141,10 @@ def task_sequencing(pr, repo):
                     ctx.oblige('SQ[penalised=%s remove=%s shared=%s]: after calculate_pka no group has determinants/terms written '
                                'after its last calculate_total_pka' % (bool(penalised), remove, shared),
                                not any(g.attrs['__stale__'] for g in groups))
+                    ctx.oblige('SQ[penalised=%s remove=%s shared=%s]: determinants caused by penalised groups are taken off the other groups '
+                               'exactly when the configuration removes penalised groups and there are some (a group that stays in the '
+                               'report keeps its half of every pair)' % (bool(penalised), remove, shared),
+                               (len(removed) > 0) == bool(remove and penalised) and all(r == list(penalised) for r in removed))
                 pr.explore(ex, thunk, FN)
     pr.assumptions.append('SQ: writers are abstracted to "may write any group" (ghost stale flag); the list of writers is the '
                           'declared frame list (FR)')
